@@ -79,4 +79,54 @@ mod verif_kani_spanned {
         kani::cover!(r.is_err());
         core::mem::forget(r);
     }
+    // K11k: a map key delivered as Spanned<String>: exactly the key's span and the key's text
+    #[kani::proof]
+    #[kani::unwind(48)]
+    fn k11_key_span_bridge() {
+        let a: usize = kani::any();
+        let b: usize = kani::any();
+        let de = crate::de::KeyDeserializer::new(crate::Key::new("k"), Some(a..b));
+        let r: Result<serde_spanned::Spanned<String>, Error> = serde::Deserialize::deserialize(de);
+        match &r {
+            Ok(s) => {
+                assert!(s.span().start == a, "key span start altered");
+                assert!(s.span().end == b, "key span end altered");
+                assert!(s.get_ref().as_bytes() == b"k", "key text altered");
+            }
+            Err(_) => assert!(false, "spanned key rejected"),
+        }
+        kani::cover!(r.is_ok());
+        core::mem::forget(r);
+    }
+
+    // K6d (floats, booleans): the tree -> serde step keeps the value bit for bit
+    #[kani::proof]
+    #[kani::unwind(8)]
+    #[kani::stub(alloc::fmt::format, stub_format)]
+    fn k6_de_float_bool() {
+        let v: f64 = kani::any();
+        let de = crate::de::ValueDeserializer::new(crate::Item::Value(crate::Value::Float(crate::Formatted::new(v))));
+        let r: Result<f64, Error> = serde::Deserialize::deserialize(de);
+        match &r {
+            Ok(x) => assert!(x.to_bits() == v.to_bits(), "float altered on the way to serde"),
+            Err(_) => assert!(false, "float rejected"),
+        }
+        kani::cover!(r.is_ok() && v.is_nan());
+        core::mem::forget(r);
+        let w: bool = kani::any();
+        let de = crate::de::ValueDeserializer::new(crate::Item::Value(crate::Value::Boolean(crate::Formatted::new(w))));
+        let r: Result<bool, Error> = serde::Deserialize::deserialize(de);
+        match &r {
+            Ok(x) => assert!(*x == w, "boolean altered on the way to serde"),
+            Err(_) => assert!(false, "boolean rejected"),
+        }
+        core::mem::forget(r);
+        let i: i64 = kani::any();
+        let r: Result<i64, Error> = serde::Deserialize::deserialize(de_of(i));
+        match &r {
+            Ok(x) => assert!(*x == i, "integer altered on the way to serde"),
+            Err(_) => assert!(false, "i64 rejected"),
+        }
+        core::mem::forget(r);
+    }
 }
